@@ -188,6 +188,7 @@ class SockModel:
         self.sent = []
         self.replies = []
         self.closed = False
+        self.reads_ahead = 0        # recv() calls made when every request so far had already been answered and read
 
     def send(self, data):
         self.sent.append(data)
@@ -195,6 +196,8 @@ class SockModel:
 
     def recv(self, n):
         k = len(self.replies)
+        if k >= len(self.sent):
+            self.reads_ahead += 1   # daliserver sends exactly one 4-byte reply per request: this read would block
         r = [self.ctx.int("reply%d_%d" % (k, i), 0, 255) for i in range(4)]
         self.replies.append(r)
         return bytes(r) if self.ctx.native else SBytes(r)
@@ -351,6 +354,13 @@ def more_units(unit, tier):
         ctx.cover()
         ctx.prove("checksum-is-xor-of-the-first-four", lst[-1] == GW.xor_all(items[:4]))
     unit("sci/_insert_checksum", r_sci_checksum, use=CUSE)
+
+    # ------------------------------------------------------------ serial gateways: what a reported backward frame / silence
+    # decodes to in send() (shared with C16)
+    from checks.c16 import serial_send_units
+    for su in serial_send_units("C18"):
+        if "/stale=0" in su.name:
+            unit(su.name[len("C18/"):], su.runner, use=su.use)
 
     # ------------------------------------------------------------ daliserver
     for name in REAL_NAMES:
